@@ -169,48 +169,25 @@ def raw_pointer_uses(f):
 
 
 def null_guards(f, pv):
-    """[(pointer expression, first block reached only when it is non-null)]"""
+    """[(pointer expression, first block reached only when it is non-null)] -- from the function's
+    two-way tests, including what is implied through `&&` / `||` temporaries (a helper
+    `!p.is_null() && len != 0` inlined into its caller)."""
+    from riolib.guards import Tests
+    tests = Tests(f, pv)
+    is_null_of = lambda atom: atom[2][0] if atom[0] == "call" and atom[1].rsplit("::", 1)[1] == "is_null" and atom[2] else None
+    ptrs = []
+    for atom, tb, fb, sb in tests.bool_edges:
+        q = is_null_of(atom)
+        if q is not None and q not in ptrs:
+            ptrs.append(q)
     out = []
-    for bi, t, cal in f.calls():
-        if cal is None or cal.name != "is_null" or t.get("t") is None:
-            continue
-        q = pv.operand(t["args"][0])
-        dest = t["dest"][0]
-        # follow the result through `Not` and short-circuit temporaries to the switch
-        sw_b = t["t"]
-        neg = False
-        cur = dest
-        steps = 0
-        while steps < 6:
-            steps += 1
-            blk = f.blocks[sw_b]
-            changed = False
-            for st in blk["st"]:
-                if st["k"] == "A" and st["r"]["k"] == "un" and st["r"]["op"] == "Not":
-                    p = op_place(st["r"]["a"])
-                    if p and p[0] == cur:
-                        cur = st["p"][0]
-                        neg = not neg
-                        changed = True
-            tm = blk["term"]
-            if tm["k"] == "switch":
-                p = op_place(tm["d"])
-                if p and p[0] == cur:
-                    # value 0 of `is_null` (or 1 of its negation) is the non-null edge
-                    for v, tg in zip(tm["vals"], tm["tgts"]):
-                        if (v == 0) != neg:
-                            out.append((q, tg))
-                    if tm["vals"] == [0]:
-                        if neg:
-                            out.append((q, tm["otherwise"]))
-                    elif tm["vals"] == [1] and not neg:
-                        out.append((q, tm["otherwise"]))
-                break
-            if tm["k"] == "goto":
-                sw_b = tm["t"]
-                continue
-            if not changed:
-                break
+    doms = f.dominators()
+    for q in ptrs:
+        for tb, sb in tests.blocks_where(lambda atom, outcome, q=q: is_null_of(atom) == q and outcome is False):
+            # the block must be entered only through that edge
+            preds = [p for p in f.pred(tb) if p in doms]
+            if all(p == sb or f.dominates(tb, p) for p in preds):
+                out.append((q, tb))
     return out
 
 
@@ -253,7 +230,7 @@ def r18_2(ctx, rid="R18.2"):
                     if same and f.dominates(nb, bi):
                         ok = True
                 r.ob(key, ok, f.loc(line), "%s of raw pointer `%s` %s" % (what, show(p, f), "is dominated by the non-null edge of an is_null test of the same pointer" if ok else "is not dominated by a non-null test"))
-        r.ob("null-guard:sites", n >= 20, "", "%d raw pointer dereference / re-owning sites" % n)
+        r.ob("null-guard:sites", n >= 12, "", "%d raw pointer dereference / re-owning sites" % n)
         # every extern "C" function with raw pointer parameters only hands them to guarded helpers or tests them itself
         helpers_ok = {"ffi_helpers::c_char_to_str", "http::ffi::header_map_to_http_headers"}
         for f in extern_fns(F):
@@ -270,7 +247,8 @@ def r18_2(ctx, rid="R18.2"):
                         if apl is not None and F.types[f.locals[apl[0]][0]].get("k") != "ptr":
                             continue  # a reference obtained under a guard, not the raw pointer itself
                         if pv.operand(a) == ("param", k):
-                            if cal.name == "is_null" or cal.key() in helpers_ok or (cal.adt, cal.name) in RAW_USERS:
+                            if cal.name == "is_null" or cal.key() in helpers_ok or (cal.adt, cal.name) in RAW_USERS or (not cal.local and cal.name in ("as_ref", "as_mut") and "ptr" in cal.path):
+                                # (`<*mut T>::as_mut` / `as_ref` test the pointer themselves and yield an Option)
                                 continue
                             bad.append(cal.key())
                 r.ob("null-guard:param:%s:%s" % (f.name, f.local_name(k) or k), not bad, f.site, "raw pointer parameter is only tested, dereferenced under a guard or passed to null-safe helpers" if not bad else "raw pointer passed unguarded to %s" % bad)
